@@ -92,6 +92,11 @@ def judge(case, obs, model):
         first = next((i for i, (x, y) in enumerate(zip(a, s)) if x != y), min(len(a), len(s)))
         issues.append(Issue("oracle", {"first_diff": first, "asyncstdlib": a[first:first + 4], "stdlib": s[first:first + 4],
                                        "out": [obs["async"]["out"], obs["sync"]["out"]]}, tag))
+    # real lists: pulls cannot be seen, but how often an iterator is requested from the list can - every stdlib tool asks
+    # each argument for ONE iterator (itertools.cycle replays what it saved, itertools.tee shares one iterator)
+    ai = [x.get("iters") or 0 for x in obs["async"].get("srcs", [])]
+    if any(n > 1 for n in ai):
+        issues.append(Issue("oracle", {"iterator_requests_per_list_argument": ai}, "list-argument-iterated-again:" + case["tool"]))
     issues += s1.correspondence(case, obs, model, _proj)
     return issues
 
